@@ -673,6 +673,9 @@ class PrefixSum:
         n = lift(seq.length)
         ln = lambda k: lift(seq.get(k))
         cx.assume(self.f(0) == 0, tag="prefix-sum")
+        if isinstance(seq.length, int) and 0 <= seq.length <= 8:
+            for k in range(seq.length):  # ground unfolding for lists of concrete length
+                cx.assume(self.f(k + 1) == self.f(k) + ln(z3.IntVal(k)), tag="prefix-sum")
         cx.assume(V.forall([j], z3.Implies(z3.And(0 <= j, j < n), self.f(j + 1) == self.f(j) + ln(j)),
                             patterns=[self.f(j + 1)]), tag="prefix-sum")
         cx.assume(V.forall([j], z3.Implies(z3.And(0 <= j, j < n), self.f(j + 1) == self.f(j) + ln(j)),
